@@ -20,7 +20,8 @@ import vlib
 ELEM = {"int8": 1, "uint8": 1, "int16": 2, "int32": 4}
 FAMS = ["single:conv@8", "single:dw@8", "single:maxpool@8", "single:avgpool@8", "single:fc@8", "conv_chain", "single:transpose@8",
         "single:add@8", "single:sub@8", "single:mul@8", "single:add_bcast@8", "single:mul_scalar@8", "single:concat@u8", "diamond", "siamese", "single:logistic@8", "single:tanh@8", "single:lrelu@8", "single:hswish@8",
-        "single:transpose@8", "single:reshape@8", "single:pad@8", "single:slice@8", "single:concat@8", "conv_chain"]
+        "single:transpose@8", "single:reshape@8", "single:pad@8", "single:slice@8", "single:concat@8", "conv_chain",
+        "single:conv", "single:dw", "single:fc", "single:maxpool", "single:avgpool"]
 
 
 def macs_of(ref):
@@ -57,10 +58,18 @@ def build_case(r, art, rng, max_macs):
     runs = []
     flash = art["npu"][0]["flash"]
     runs.append([0, 0, len(flash)] + list(flash))
+
+    def to_bytes(vals, es):
+        out = []
+        for v in vals:
+            u = int(v) % (1 << (8 * es))
+            out += [(u >> (8 * k)) & 255 for k in range(es)]
+        return out
     for si, oi in zip(ref.sg["inputs"], sg["inputs"]):
         t = ref.tens(si)
-        if t["type"] not in ("int8", "uint8"):
+        if t["type"] not in ("int8", "uint8", "int16"):
             raise refnet.Unsupported("input type %s" % t["type"])
+        es = ELEM[t["type"]]
         n = int(np.prod(t["shape"])) if t["shape"] else 1
         lo, hi = refnet.QRANGE[t["type"]]
         mode = rng.choice(["rand", "rand", "extreme", "narrow"])
@@ -78,17 +87,22 @@ def build_case(r, art, rng, max_macs):
         off = alloc["offsets"][oi]
         if off < 0:
             raise refnet.Unsupported("input without arena offset")
-        runs.append([1, off, n] + [int(v) % 256 for v in data])
+        runs.append([1, off, n * es] + to_bytes(data, es))
     want = ref.run(inputs)
     outs = []
     expect = []
+    layout = []          # (elements, element size, signed) of every output
     for si, oi in zip(ref.sg["outputs"], sg["outputs"]):
         off = alloc["offsets"][oi]
         v = want[si].reshape(-1)
+        ty = ref.tens(si)["type"]
+        if ty not in ELEM or ty == "int32":
+            raise refnet.Unsupported("output type %s" % ty)
         if off < 0:
             raise refnet.Unsupported("output without arena offset")
-        outs.append([1, off, len(v)])
-        expect += [int(x) % 256 for x in v]
+        outs.append([1, off, len(v) * ELEM[ty]])
+        expect += [int(x) for x in v]
+        layout.append((len(v), ELEM[ty], ty != "uint8"))
     from ethosu.vela.architecture_features import Accelerator, create_default_arch
     arch = create_default_arch(Accelerator(artefacts.job_accel(r["job"])))
     flat = [int(arch.ncores), int(arch.ofm_ublock.depth), int(arch.ifm_ublock.depth), int(arch.shram_lut_address), len(runs)]
@@ -104,15 +118,28 @@ def build_case(r, art, rng, max_macs):
     for w in streams:
         flat += [len(w)] + w
     tol = 1 if getattr(ref, "padded_avg", False) or getattr(ref, "requant_concat", False) or getattr(ref, "has_table_op", False) else 0
-    signed = [ref.tens(si)["type"] == "int8" for si in ref.sg["outputs"] for _ in range(int(np.prod(ref.tens(si)["shape"])))]
+    signed = layout
     return flat, expect, tol, signed
+
+
+def decode_outputs(data, layout):
+    """bytes of the output tensors -> element values"""
+    vals, pos = [], 0
+    for n, es, sg in layout:
+        for _ in range(n):
+            if pos + es > len(data):
+                return vals
+            u = sum(data[pos + k] << (8 * k) for k in range(es))
+            vals.append(u - (1 << (8 * es)) if sg and u >= (1 << (8 * es - 1)) else u)
+            pos += es
+    return vals
 
 
 def run(tier):
     res = vlib.Result("C01", tier, "other")
     b = vlib.build_property("C01")
     okx, xlog = vlib.build_extraction("npuExec")
-    n = 120 if tier == "quick" else 1400
+    n = 140 if tier == "quick" else 1400
     max_macs = 250000 if tier == "quick" else 1500000
     rng = random.Random("c01/%d" % vlib.seed())
     jobs = compiles.corpus_jobs(capture=False) + compiles.plan(FAMS, n, vlib.seed(), tag="c01", capture=False)
@@ -143,11 +170,8 @@ def run(tier):
             continue
         programs += 1
         kinds[tuple(r.get("net_desc") or [])] += 1
-        got = o[1:]
-
-        def sv(v, s):
-            return v - 256 if s and v >= 128 else v
-        diffs = [(i, sv(g, s), sv(e, s)) for i, (g, e, s) in enumerate(zip(got, expect, signed)) if abs(sv(g, s) - sv(e, s)) > tol]
+        got = decode_outputs(o[1:], signed)
+        diffs = [(i, g, e) for i, (g, e) in enumerate(zip(got, expect)) if abs(g - e) > tol]
         if diffs or len(got) != len(expect):
             bad.append((r, diffs[:5], len(diffs), len(expect)))
         if len(samples) < 3:
@@ -156,7 +180,8 @@ def run(tier):
     res.cov.update({
         "explanation": "Partial. Whole-network equivalence for all networks is not proved. The command streams of %d compiled networks "
                        "(convolution / depthwise / fully connected / pooling chains, elementwise add / sub / mul with broadcasts and scalars, "
-                       "concatenation incl. the rescaling uint8 form, memory-only operators; int8 and uint8, all accelerators and memory modes) were "
+                       "concatenation incl. the rescaling uint8 form, 8-bit table activations, memory-only operators; int8, uint8 and (convolution, "
+                       "depthwise, fully connected, pooling) int16, all accelerators and memory modes) were "
                        "executed by the extracted Coq interpreter hw/NpuExec.v on random inputs and compared bit for bit (one step for padded "
                        "average pools) with the TFLite reference kernels evaluated on the source model. Networks using operators the "
                        "interpreter or the reference does not model are skipped and counted." % programs,
